@@ -499,9 +499,20 @@ where
             if tame(x) {
                 env.emit_u64("digits", x.digits() as u64);
                 env.emit_u64("isint", x.repr().is_int() as u64);
-                if x.repr().exponent().abs() < 1200 {
+            }
+        }
+        "tof" => {
+            // conversion to primitive floats (kept apart from query: it goes through the base conversion)
+            let x = &ww.p[a];
+            if !tame(x) || x.repr().exponent().abs() >= 1200 {
+                return env.skip();
+            }
+            match form % 2 {
+                0 => {
                     let f = x.to_f64();
                     env.emit_f64("f64", f.value());
+                }
+                _ => {
                     let f = x.to_f32();
                     env.emit_f32("f32", f.value());
                 }
